@@ -10,7 +10,7 @@
    map with non-zero sentinel needs non-overlapping ranges) is exact: with overlapping ranges the
    two paths differ (finding F36), shown by the refuted statement below. *)
 From Coq Require Import QArith.
-From HS Require Import Prelude Cov Map Spec Ops Spec2 Params AtFold MapProofs RangeProofs RangeRefine Exec Exec2 ExecProofs.
+From HS Require Import Prelude Cov Map Spec Ops Spec2 Params AtFold MapProofs RangeProofs RangeRefine RangeAbs Exec Exec2 ExecProofs.
 Open Scope Z_scope.
 
 Theorem C08_ranges_contain :
@@ -93,6 +93,19 @@ Proof.
 Qed.
 
 
+(* the whole result of the slice path as a function of the dense abstraction: the values of the explicit-pixel
+   update of the contained pixels, and a coverage mask holding the old coverage plus EVERY coverage pixel a
+   range touches (a superset of what the explicit-pixel route reserves: the one difference the two routes may show) *)
+Theorem C08_range_update_refines_the_dense_range_update :
+  forall (P : params) (m : smap (p_V P)) (o : uop) (rows : list (Z * Z)) (value : p_V P) (na : bool),
+    MapProofs.wf P m -> (forall r, In r rows -> row_ok P m r) ->
+    (o = UAdd -> p_sent_nonzero P = true -> NoDup (expand_ranges rows)) ->
+    abs (p_V P) (p_dv P)
+        (update_ranges (p_V P) (p_dv P) (p_vadd P) (p_vor P) (p_vand P) (p_vzero P) (p_is_sent P) (p_sent_nonzero P)
+                       m o rows value na) =
+    d_update_ranges P (abs (p_V P) (p_dv P) m) o rows value na.
+Proof. exact ranges_refines. Qed.
+
 Print Assumptions C08_ranges_contain.
 Print Assumptions C08_reserved_coverage_is_a_superset.
 Print Assumptions C08_slice_operation_pointwise.
@@ -101,3 +114,4 @@ Print Assumptions C08_range_update_keeps_layout.
 Print Assumptions C08_overlapping_add_with_nonzero_sentinel_refuted.
 Print Assumptions C08_single_range_all_alignments.
 Print Assumptions C08_rows_hypotheses_satisfiable.
+Print Assumptions C08_range_update_refines_the_dense_range_update.
